@@ -29,6 +29,7 @@ type Profile struct {
 	SameRow     int  // permil: next op targets a row already touched in this txn
 	Compose     int  // permil: insert a non-root row together with a reference to it
 	MaxRows     int  // delete pressure above this many rows in a table
+	BigArith    bool // arithmetic mutations whose result does not fit
 	IndexPlay   int  // permil: the transaction is one of the index patterns (swap, hand-over, delete+reinsert, duplicates)
 	DupName     int  // permil: two inserts claim the same uuid-name
 	SimpleWhere bool // where clauses restricted to _uuid ==, "all rows" and scalar equality (keeps condition-evaluation defects out of other properties' checks)
@@ -575,6 +576,13 @@ func (g *Gen) mutation(c *Column) []any {
 		if !ct.IsScalar() && (m == "*=" || m == "/=" || m == "%=") {
 			// avoid creating duplicate elements in a set
 			m = "+="
+		}
+		if g.prof.BigArith && ct.IsScalar() && g.chance(60) {
+			// results that do not fit: RFC 7047 prescribes a "range error"
+			if ct.Key.Type == "integer" {
+				return []any{c.Name, "*=", int64(1) << 62}
+			}
+			return []any{c.Name, "*=", 1e308}
 		}
 		return []any{c.Name, m, arg}
 	}
